@@ -207,7 +207,8 @@ def real_schedule(c):
     from mistral.engine import actions
     from mistral import exceptions as exc
     from mistral.rpc import clients as rpc_clients
-    parent = _Obj(id=c['parentId'], root_execution_id=c['parentRoot'], workflow_name='parent',
+    # state: WorkflowAction.schedule refuses a completed parent execution (repo patch 16)
+    parent = _Obj(id=c['parentId'], root_execution_id=c['parentRoot'], workflow_name='parent', state='RUNNING',
                   params=copy.deepcopy(c['parentParams']))
     task_ex = _Obj(id=c['taskId'], workflow_execution=parent)
     pspec = _Obj(get_name=lambda: 'parent')
